@@ -398,6 +398,8 @@ struct OutSample {
     pulled_last: usize,
     ended_last: bool,
     accepted: usize,
+    /// taken just before a body chunk is pulled: the buffer must then be below the limit
+    before_pull: bool,
 }
 
 struct Shared {
@@ -457,10 +459,14 @@ impl Shared {
         self.hwm_pipe_ahead = self.hwm_pipe_ahead.max(p);
     }
     fn note_out(&mut self) {
+        self.note_out2(false)
+    }
+    fn note_out2(&mut self, before_pull: bool) {
         let (pl, el) = self.resps.last().map(|r| (r.pulled, r.ended)).unwrap_or((0, false));
-        let s = OutSample { completions: self.resps.len(), pulled_last: pl, ended_last: el, accepted: self.accepted };
+        let s = OutSample { completions: self.resps.len(), pulled_last: pl, ended_last: el, accepted: self.accepted, before_pull };
         if let Some(last) = self.out_samples.last() {
-            if last.completions == s.completions
+            if !before_pull
+                && last.completions == s.completions
                 && last.pulled_last == s.pulled_last
                 && last.ended_last == s.ended_last
                 && last.accepted == s.accepted
@@ -553,6 +559,9 @@ impl MessageBody for ScriptBody {
         let mut s = this.sh.borrow_mut();
         if this.left > 0 {
             this.left -= 1;
+            if this.idx + 1 == s.resps.len() {
+                s.note_out2(true);
+            }
             s.resps[this.idx].pulled += 1;
             s.pulled_total += 1;
             s.note_out();
@@ -916,6 +925,12 @@ fn oracle(case: &Case, o: &Outcome) -> Option<(String, String)> {
             }
         }
     }
+    // (3b) after the refusal nothing else is answered
+    if let Some(p) = o.statuses.iter().position(|c| *c == 431) {
+        if p + 1 != o.statuses.len() {
+            return Some(("response-after-431".into(), format!("statuses {}", rle(&o.statuses))));
+        }
+    }
     // (4) response bytes buffered ahead of the socket
     let head_max = o.head_lens.iter().copied().max().unwrap_or(0);
     let enc_max = s.resps.iter().map(|r| enc_chunk(r.stream, r.chunk)).max().unwrap_or(0);
@@ -941,6 +956,14 @@ fn oracle(case: &Case, o: &Outcome) -> Option<(String, String)> {
             + sm.pulled_last * enc_chunk(r.stream, r.chunk)
             + if sm.ended_last && r.stream { 5 } else { 0 };
         let held = produced.saturating_sub(sm.accepted);
+        // the mechanism itself: a chunk is pulled only while fewer than `wbs` bytes are buffered
+        // (exact when the heads are known; an unknown head counts 0, which only under-counts)
+        if sm.before_pull && held >= case.wbs {
+            return Some((
+                "chunk-pulled-over-limit".into(),
+                format!("a body chunk was pulled while {} >= h1_write_buffer_size {} bytes were buffered", held, case.wbs),
+            ));
+        }
         if held > worst {
             worst = held;
             worst_at = sm.completions;
